@@ -12,3 +12,4 @@ CONSTANTS
   Faithful = TRUE
 INVARIANTS TypeOK NotifiedOncePerChange
 PROPERTY NoDoubleApply NoRegress
+VIEW StepView
